@@ -37,9 +37,10 @@ import (
 type opnd struct {
 	kind string // absent | nil | typed
 	e    entry  // typed: an addressable value of the operand's static type, as it is at run time
+	d    *descr // typed: the descriptor, when it is not that of e (types declared in the template)
 }
 
-func typed(e entry) opnd { return opnd{"typed", e} }
+func typed(e entry) opnd { return opnd{kind: "typed", e: e} }
 
 var (
 	opAbsent = opnd{kind: "absent"}
@@ -49,6 +50,10 @@ var (
 type formSpec struct {
 	form    string
 	class   string
+	inBody     bool // the operands are those of a show at the top of a file of the placement's format (rendered file, macro body)
+	oracleOnly bool // the build outcome depends on more than this show node: no correspondence
+	dynLoose   bool // the model's dynamic side does not describe the value exactly (Scriggo type wrappers): only "model ok ⇒ run ok"
+	heldDirect *formSpec // the shown interface holds a value of a type only a template can name: the show of that value by itself
 	prefix  string // at the very start of the file that holds the show (declarations)
 	pre     string // right before the show, at the same place
 	show    string
@@ -136,7 +141,9 @@ func (p position) place(f formSpec) *nodeCase {
 	for _, ops := range f.exprs {
 		ds := make([]descr, len(ops))
 		for j, o := range ops {
-			if o.kind == "typed" {
+			if o.kind == "typed" && o.d != nil {
+				ds[j] = *o.d
+			} else if o.kind == "typed" {
 				ds[j] = describeEntry(o.e)
 			}
 		}
@@ -163,6 +170,20 @@ func derefComplexFinding(nc *nodeCase, bo outcome) bool {
 	}
 	k := nc.exprs[0][1].e.val.Kind()
 	return k == reflect.Complex64 || k == reflect.Complex128
+}
+
+// renderInMdURLFinding: known finding C09-render-in-markdown-url-shows-in-url — the shows of a
+// rendered file are type checked where they stand (top of the file, outside any URL) but, when the
+// render expression stands inside a Markdown URL, they are emitted with the URL flag of that site.
+// Predicted from the input alone: the form is the render of a file that shows v, the site is the
+// Markdown URL placement, and v shown by itself at the site is rejected by the build (the case
+// itself having built, v is accepted where the show stands).
+func renderInMdURLFinding(nc *nodeCase) bool {
+	if nc.form != "render-of-file-showing" || !nc.p.inURL || nc.p.name != "markdown" {
+		return false
+	}
+	_, bo := build(nc.p, "v", nc.exprs[0][1].e.val)
+	return bo.class == "fail"
 }
 
 func buildNode(nc *nodeCase) (t *scriggo.Template, o outcome) {
@@ -474,7 +495,6 @@ func literalForms() []formSpec {
 // ---------------------------------------------------------------------------------------------
 
 func runForms(c *hx.Ctx) error {
-	res := c.Res
 	cat := catalogue()
 	classes := append(pick(cat, classNames), nilClasses()...)
 	rights := pick(cat, rightNames)
@@ -489,6 +509,17 @@ func runForms(c *hx.Ctx) error {
 			for _, f := range unaryForms(a) {
 				cases = append(cases, p.place(f))
 			}
+		}
+		// a show inside a rendered file / a macro body is checked where it stands and runs where the
+		// render expression / the call stands
+		ext := filepath.Ext(p.file)
+		for _, a := range classes {
+			one := [][]opnd{{opAbsent, typed(a)}}
+			cases = append(cases,
+				p.place(formSpec{form: "render-of-file-showing", class: a.name, oracleOnly: true, inBody: true, show: `{{ render "part` + ext + `" }}`,
+					files: map[string]string{"part" + ext: "{{ v }}"}, globals: gl("v", a), exprs: one}),
+				p.place(formSpec{form: "macro-showing", class: a.name, oracleOnly: true, inBody: true, prefix: "{% macro M %}{{ v }}{% end macro %}",
+					show: "{{ M() }}", globals: gl("v", a), exprs: one}))
 		}
 		for _, a := range lefts {
 			for _, b := range rights {
@@ -505,6 +536,12 @@ func runForms(c *hx.Ctx) error {
 		}
 	}
 
+	return evalNodeCases(c, cases)
+}
+
+// evalNodeCases builds and runs every case, compares with the model and evaluates the oracle.
+func evalNodeCases(c *hx.Ctx, cases []*nodeCase) error {
+	res := c.Res
 	lines := make([]string, len(cases))
 	for i, nc := range cases {
 		lines[i] = nc.line()
@@ -550,8 +587,12 @@ func runForms(c *hx.Ctx) error {
 		// the property itself, on the real outcomes
 		if bo.class == "ok" && ro.class != "ok" {
 			if clause := nodeOracle(nc, ro); clause != "" {
-				res.AddBreak(proto.Break{Kind: "property", Name: clause, Case: lines[i], Human: nc.human(),
-					Impl: "build ok; run: " + ro.class + " " + ro.msg, Model: m})
+				b := proto.Break{Kind: "property", Name: clause, Case: lines[i], Human: nc.human(),
+					Impl: "build ok; run: " + ro.class + " " + ro.msg, Model: m}
+				if renderInMdURLFinding(nc) {
+					b.Finding = c.Known("C09-render-in-markdown-url-shows-in-url")
+				}
+				res.AddBreak(b)
 			}
 		}
 		if bo.class == "other" {
@@ -575,7 +616,7 @@ func runForms(c *hx.Ctx) error {
 			res.AddBreak(b)
 			continue
 		}
-		if model == nil {
+		if model == nil || nc.oracleOnly {
 			continue
 		}
 		f := strings.Fields(m)
@@ -607,6 +648,9 @@ func runForms(c *hx.Ctx) error {
 				dyn = d
 			}
 		}
+		if nc.dynLoose {
+			full = false
+		}
 		if (full && dyn != ro.class) || (!full && dyn == "ok" && ro.class != "ok") {
 			res.AddBreak(proto.Break{Kind: "correspondence", Name: "dynOK(evaluated operand)-vs-Template.Run", Case: lines[i], Human: nc.human(),
 				Impl: ro.class + " " + ro.msg, Model: f[2]})
@@ -636,14 +680,35 @@ func nodeOracle(nc *nodeCase, ro outcome) string {
 	if ro.class == "other" {
 		return "accepted-show-fails-at-run-time-with-unexpected-error"
 	}
+	if nc.heldDirect != nil {
+		if _, bo := buildNode(nc.p.place(*nc.heldDirect)); bo.class != "ok" {
+			return "" // the dynamic type, shown by itself in the same placement, is rejected
+		}
+		return "held-value-fails-though-dynamic-type-accepted"
+	}
 	if !hasValues {
 		return "accepted-show-fails-at-run-time"
 	}
+	at := nc.p
+	if nc.inBody {
+		at = topOf(filepath.Ext(nc.p.file))
+	}
 	for _, dv := range dyn {
 		p := cell(dv.Type(), dv)
-		if _, bo := build(nc.p, "dyn", p); bo.class != "ok" {
+		if _, bo := build(at, "dyn", p); bo.class != "ok" {
 			return ""
 		}
 	}
 	return "held-value-fails-though-dynamic-type-accepted"
+}
+
+// topOf is the placement that stands for the top level of a file with the given extension
+func topOf(ext string) position {
+	want := map[string]string{".txt": "text", ".html": "html", ".css": "css", ".js": "js", ".json": "json", ".md": "markdown"}[ext]
+	for _, p := range positions {
+		if p.name == want && !p.inURL && filepath.Ext(p.file) == ext {
+			return p
+		}
+	}
+	panic("c09 forms: no top-level placement for " + ext)
 }
